@@ -35,12 +35,16 @@
    rel not).
    On a both mixed cases reorder (with rel allowed and target not, the noopener pass appends
    rel="noopener" behind the forced target: F15 in the other direction).
+   A tag whose URL attribute does not survive the first pass is stable without any condition on
+   patterns or on net/url (C20_attrs_stable_no_surviving_url, Proofs/AttrIdemNoUrl.v); hence
+   C20_ugc_no_surviving_url: UGCPolicy, every input, provided no del / ins cite and no area href
+   survives the first pass.
    Missing: the one mixed case in which the statement does hold (link: rel allowed, crossorigin
-   not), and UGC's area / del / ins; carried by the idempotence oracle on every generated case of
+   not), and UGC's area with a surviving href; carried by the idempotence oracle on every generated case of
    the stated policy class (link grid included), StrictPolicy and UGCPolicy. *)
 From Coq Require Import List NArith Bool.
 Import ListNotations.
-From BM Require Import Bytes Escape Tokenizer Policy Attrs Loop LoopProps EscapeProofs LinkProofs MiscProofs Url Style MapProofs SanRoundTrip PassThrough AttrIdem AttrProvenance AttrIdemLinks LinkIdem AttrIdemAccepted Builder GenTables GenScripts UGCSpec C04Inst PlainInst.
+From BM Require Import Bytes Escape Tokenizer Policy Attrs Loop LoopProps EscapeProofs LinkProofs MiscProofs Url Style MapProofs SanRoundTrip PassThrough AttrIdem AttrProvenance AttrIdemLinks LinkIdem AttrIdemAccepted AttrIdemNoUrl Builder GenTables GenScripts UGCSpec C04Inst PlainInst.
 
 Theorem C20_escaping_not_applied_twice_partial : forall d,
   render_item (IText (unescape false (render_item (IText d)))) = render_item (IText d).
@@ -160,6 +164,46 @@ Proof.
     rewrite (Hno n a Hin) in T. exact T.
 Qed.
 
+(* a tag whose URL attribute (href / cite / src, by element) does not survive the first pass is stable, whatever patterns
+   the policy attaches, when the crossorigin and sandbox passes do not apply to the element *)
+Theorem C20_attrs_stable_no_surviving_url : forall M U R (I : interp M U R) (p : policy M U R) n aps a,
+  has_style_policies I p n = false -> (forall l, sandbox_pass p n l = l) -> (forall l, crossorigin_pass p n l = l) ->
+  no_url_attr n (sanitize_attrs I p n a aps) ->
+  sanitize_attrs I p n (sanitize_attrs I p n a aps) aps = sanitize_attrs I p n a aps.
+Proof. intros M U R I p n aps a. exact (fun H1 H2 H3 => sanitize_attrs_idem_no_url I p n aps H1 H2 H3 a). Qed.
+
+(* UGCPolicy, every input: idempotent whenever no del / ins cite attribute and no area href attribute survives the first pass
+   (the property's own proviso for del / ins; area, whose rel carries a pattern, is covered when it is not a link) *)
+Lemma ugc_no_cross_no_sandbox : requireCrossOrigin ugc = false /\ requireSandbox ugc = None.
+Proof. vm_compute. split; reflexivity. Qed.
+
+Theorem C20_ugc_no_surviving_url : forall (I : interp smatcher unit unit),
+  (forall raw u, valid_url I ugc raw = Some u -> valid_url I ugc u = Some u) ->
+  forall s,
+  (forall n a aps, In (TStart n a) (tokenize s) \/ In (TSelf n a) (tokenize s) -> mem n ugc_unstable = true ->
+     element_policies I ugc n = Some aps -> no_url_attr n (clean_attrs I ugc n a aps)) ->
+  sanitize_bytes I ugc (sanitize_bytes I ugc s) = sanitize_bytes I ugc s.
+Proof.
+  intros I Hst s Hno. destruct ugc_url_settings as (_ & _ & _ & Hrw & _).
+  apply (sanitize_idempotent_on I ugc (ugc_plain I) ugc_no_comments).
+  intros n a aps Hin Hp.
+  assert (Hs : has_style_policies I ugc n = false).
+  { destruct ugc_no_styles_no_data as (E1 & E2 & E3 & _). unfold has_style_policies. rewrite E1, E2, E3. reflexivity. }
+  destruct (mem n ugc_unstable) eqn:Eu.
+  - destruct ugc_no_cross_no_sandbox as [Hc Hsb].
+    assert (E : forall l, clean_attrs I ugc n l aps = sanitize_attrs I ugc n l aps) by (intros l; unfold clean_attrs; destruct l; reflexivity).
+    specialize (Hno n a aps Hin Eu Hp). rewrite E in Hno. rewrite !E.
+    apply (sanitize_attrs_idem_no_url I ugc n aps Hs); [| |exact Hno].
+    + intros l. unfold sandbox_pass. rewrite Hsb. reflexivity.
+    + intros l. unfold crossorigin_pass. rewrite Hc. reflexivity.
+  - apply (elem_stable_sound I ugc Hrw Hst); [exact Hs|].
+    assert (Hl : lookup n (elsAndAttrs ugc) = Some aps).
+    { unfold element_policies in Hp. destruct (lookup n (elsAndAttrs ugc)); [exact Hp|].
+      unfold match_regex, matching_entries in Hp. rewrite ugc_no_patterns in Hp. cbn in Hp. discriminate. }
+    pose proof ugc_elements_stable as T. rewrite forallb_forall in T. specialize (T _ (lookup_In_gen _ _ _ Hl)). cbn [fst snd] in T.
+    rewrite Eu in T. exact T.
+Qed.
+
 Theorem C20_strict : forall (I : interp smatcher unit unit) s,
   sanitize_bytes I strict (sanitize_bytes I strict s) = sanitize_bytes I strict s.
 Proof.
@@ -192,6 +236,27 @@ Proof.
   cbn in Hx. repeat (destruct Hx as [<-|Hx]; [vm_compute; reflexivity|]). contradiction.
 Qed.
 
+(* the proviso of C20_ugc_no_surviving_url is met by documents that do contain del / ins / area tags, e.g. when the cite
+   does not parse (here: an oracle that parses nothing) *)
+Definition c20_interp_nourl : interp smatcher unit unit :=
+  {| mmatch := fun _ _ => true; upol := fun _ _ => true; rewrite := fun _ b => b; url_parse := fun _ => None; css_decls := fun _ => None |}.
+Definition ugc_no_url_b (I : interp smatcher unit unit) (s : bytes) : bool :=
+  forallb (fun t => match t with
+                    | TStart n a | TSelf n a =>
+                      if mem n ugc_unstable then
+                        match element_policies I ugc n, url_attr_of n with
+                        | Some aps, Some k => negb (existsb (key_is k) (clean_attrs I ugc n a aps))
+                        | _, _ => true
+                        end
+                      else true
+                    | _ => true
+                    end) (tokenize s).
+Example C20_ugc_proviso_example :
+  ugc_no_url_b c20_interp_nourl (B"<del datetime=""2020-01-01"" cite=""http://[::1"">x</del><ins cite=""%zz"">y</ins><area alt=""a"" shape=""rect""><p>z</p>") = true /\
+  sanitize_bytes c20_interp_nourl ugc (B"<del datetime=""2020-01-01"" cite=""http://[::1"">x</del><ins cite=""%zz"">y</ins><area alt=""a"" shape=""rect""><p>z</p>")
+    = B"<del datetime=""2020-01-01"">x</del><ins>y</ins><area alt=""a"" shape=""rect""><p>z</p>".
+Proof. split; vm_compute; reflexivity. Qed.
+
 (* a second witness of the same kind (finding F17): rel is not allowed on link but crossorigin is; the first pass appends
    rel and then crossorigin, the second drops rel, keeps crossorigin in place and appends rel behind it *)
 Definition c20_policy2 : policy smatcher unit unit :=
@@ -211,6 +276,8 @@ Proof.
 Qed.
 
 Print Assumptions C20_link_passes_idempotent.
+Print Assumptions C20_attrs_stable_no_surviving_url.
+Print Assumptions C20_ugc_no_surviving_url.
 Print Assumptions C20_attrs_stable_forced_accepted_or_rejected.
 Print Assumptions C20_idempotent_stable_elements2.
 Print Assumptions C20_refuted_forced_attr_order_crossorigin.
